@@ -17,7 +17,7 @@
    lower-case to ASCII, random bytes); UnmarshalText, Scan(string), Scan([]byte) and NewFromString agree with
    SetString; Format: the model of Format is compared byte for byte and against fmt's padding rules (fmt_pad). *)
 From Coq Require Import ZArith Bool List.
-From Apd Require Import Generated.Consts Model.Base Model.NumDigits Model.Decimal Model.Context Model.Text Spec.Grammar Proofs.Core Proofs.SetExponent Proofs.TextProofs Proofs.GrammarEquiv Proofs.Accept.
+From Apd Require Import Generated.Consts Model.Base Model.NumDigits Model.Decimal Model.Context Model.Text Spec.Grammar Proofs.Core Proofs.SetExponent Proofs.TextProofs Proofs.GrammarEquiv Proofs.Accept Proofs.FormatFlags.
 Open Scope Z_scope.
 
 Theorem C14_string_is_to_scientific_string d : 0 <= coeff d -> format_G d = sci_string d.
@@ -72,4 +72,18 @@ Example C14_grammar_examples :
    gdec [110;97;110;115;110;97;110], gdec [78;97;78;49;50;51])
   = (Some (mkDec Finite false (-1) 5), Some (mkDec Finite false 0 1), Some (mkDec Finite false 5 1), None, None, None,
      None, Some (mkDec NaN false 0 0)).
+Proof. vm_compute. reflexivity. Qed.
+
+(* Format's flags (+, space, -, 0) and width: the model is fmt's padding rule (fmt_pad, written independently) applied to
+   the text of the same verb, for every decimal, flag combination and width *)
+Theorem C14_format_flags_are_fmt_padding fl fmtc d : 0 <= coeff d ->
+  format_verb fl fmtc d =
+  fmt_pad (fl_plus fl) (fl_space fl) (fl_minus fl) (fl_zero fl) (fl_width fl) (is_finite d) (format_text fmtc d).
+Proof. exact (format_verb_is_fmt_pad fl fmtc d). Qed.
+Print Assumptions C14_format_flags_are_fmt_padding.
+(* "%+08.v"-style example: -1.5 with flags 0 and width 8, +Infinity with flag + and width 10 left-justified *)
+Example C14_format_flags_examples :
+  (format_verb (mkFlags false false false true (Some 8)) ch_G (mkDec Finite true (-1) 15),
+   format_verb (mkFlags true false true false (Some 10)) ch_G (mkDec Infinite false 0 0))
+  = ([45;48;48;48;48;49;46;53], [43;73;110;102;105;110;105;116;121;32]).
 Proof. vm_compute. reflexivity. Qed.
